@@ -116,6 +116,35 @@ pub fn on_sink<J: Job>(kind: &str, cap: usize, job: &J) -> String {
             let n = v.len();
             with_oracle(show(ok, &v, n), verdict(job, ok, &v, n, None, true, true))
         }
+        "io_slice" => {
+            // std's bounded writer (&mut [u8]) behind minicbor's io adapter: copies what fits, then fails
+            let mut buf = padded(cap);
+            let (ok, remaining) = {
+                let mut w = Writer::new(&mut buf[PAD .. PAD + cap]);
+                let ok = job.run(&mut w);
+                (ok, w.into_inner().len())
+            };
+            let pos = cap - remaining;
+            let written = buf[PAD .. PAD + pos].to_vec();
+            let tail = buf[PAD + pos .. PAD + cap].iter().all(|b| *b == FILL);
+            let full = job.expected();
+            let mut v = verdict(job, ok, &written, pos, Some(cap), canaries_ok(&buf, cap), tail);
+            if v.is_ok() && written.len() != cap.min(full.len()) { v = Err(format!("io writer holds {} bytes, expected min(cap, total) = {}", written.len(), cap.min(full.len()))) }
+            with_oracle(show(ok, &written, pos), v)
+        }
+        "io_trickle" => {
+            // an io::Write that accepts one byte per write() call: write_all has to loop
+            struct Trickle(Vec<u8>);
+            impl std::io::Write for Trickle {
+                fn write(&mut self, b: &[u8]) -> std::io::Result<usize> { if b.is_empty() { Ok(0) } else { self.0.push(b[0]); Ok(1) } }
+                fn flush(&mut self) -> std::io::Result<()> { Ok(()) }
+            }
+            let mut w = Writer::new(Trickle(Vec::new()));
+            let ok = job.run(&mut w);
+            let v = w.into_inner().0;
+            let n = v.len();
+            with_oracle(show(ok, &v, n), verdict(job, ok, &v, n, None, true, true))
+        }
         _ => "?kind".into()
     }
 }
